@@ -161,6 +161,41 @@ def check_identification(path, subset=None, junk=False):
     return None
 
 
+def check_rewrite(scratch, present, swapped):
+    """identification follows the bytes, not the path: a file is identified, then rewritten in
+    place by a different zip of the same length and with the same timestamps (one marker member
+    renamed to an equally long name), then identified again.  None or message."""
+    path = os.path.join(scratch.path, "rewritten.bin")
+
+    def write(names):
+        with zipfile.ZipFile(path, "w") as z:
+            for nm in names:
+                z.writestr(zipfile.ZipInfo("archive/" + nm, date_time=(2020, 1, 1, 0, 0, 0)), b"2\n")
+
+    decoy = "x" + swapped[1:]
+    write(present)
+    st0 = os.stat(path)
+    try:
+        f_a = quiet_identify(path)
+        write([decoy if nm == swapped else nm for nm in present])
+        os.utime(path, ns=(st0.st_atime_ns, st0.st_mtime_ns))
+        same_meta = os.stat(path).st_size == st0.st_size
+        f_b = quiet_identify(path)
+    except Exception as e:  # noqa: BLE001
+        return f"identification raised {type(e).__name__}: {e}"
+    finally:
+        if os.path.exists(path):
+            os.remove(path)
+    m = table_check(sorted(present), f_a)
+    if m:
+        return m
+    m = table_check(sorted(set(present) - {swapped}), f_b)
+    if m:
+        return (f"after the file was rewritten in place (same length: {same_meta}, same timestamps) without "
+                f"{swapped}: {m}; before the rewrite it was identified as {f_a}")
+    return None
+
+
 def torch_accepts(path):
     """does PyTorch's own *zip* loader accept the file? (zip local-file magic at offset 0,
     as torch.serialization requires, and torch.load succeeds)"""
@@ -398,7 +433,14 @@ def replay(case):
             m = check_identification(p)
             if m is None and torch_accepts(p) and "PyTorch v1.3" not in quiet_identify(p):
                 m = "torch.load accepts the file but 'PyTorch v1.3' is not reported"
+            want = DOCUMENTED.get(case["kind"])
+            if m is None and want and want not in quiet_identify(p):
+                m = (f"a {DOCUMENTED_WHAT[case['kind']]} is the documented shape of {want!r} but is identified as "
+                     f"{quiet_identify(p)}")  # fmt: skip
             return Failure(case, f"real file {case}: {m}") if m else None
+        if case["op"] == "rewrite":
+            m = check_rewrite(scratch, case["present"], case["swapped"])
+            return Failure(case, f"rewrite in place {case}: {m}") if m else None
         m = check_polyglot(case["a"], case["b"], scratch, case.get("name_given", True))[0]
         return Failure(case, m) if m else None
 
@@ -406,6 +448,7 @@ def replay(case):
 def shards(tier):
     out = [{"kind": "synthetic", "part": i, "nparts": 6} for i in range(6)]
     out += [{"kind": "real", "part": i, "nparts": 2} for i in range(2)]
+    out += [{"kind": "rewrite"}]
     out += [{"kind": "pairs", "part": i, "nparts": 6} for i in range(6)]
     out += [{"kind": "variations", "n": 60 if tier == "quick" else 10000, "idx": i} for i in range(2)]
     out += [{"kind": "faults", "part": i, "nparts": 4} for i in range(4)]
@@ -442,6 +485,17 @@ def run_shard(spec, seed):
                     break
             res.exhaustive = True
             res.extra["synthetic_files"] = n
+        elif spec["kind"] == "rewrite":
+            for k in range(1, len(MARKERS) + 1):
+                for present in itertools.combinations(MARKERS, k):
+                    for swapped in present:
+                        m = check_rewrite(scratch, list(present), swapped)
+                        case = {"op": "rewrite", "present": list(present), "swapped": swapped}
+                        res.note(None, len(present) >= 2, klass="rewrite-in-place", sample=case)
+                        if m:
+                            res.failures.append(Failure(case, f"rewrite in place {case}: {m}"))
+                            return res
+            res.exhaustive = True
         elif spec["kind"] == "real":
             for i, (kind, variant) in enumerate(itertools.product(REAL_KINDS, range(4))):
                 if i % spec["nparts"] != spec["part"]:
